@@ -35,6 +35,8 @@ def check(ctx, report):
         reviewed = json.load(f).get('C07', {})
     speccheck.run(ctx, report, 'C07', 'ssh.json', MODULES, reviewed)
     padding(ctx, report)
+    from .. import rejections
+    rejections.check(ctx, report, 'C07.R9', 'ssh')
     mpint_sign(ctx, report)
     software_versions(ctx, report)
     report.rule('C07.R8', 'name-lists: split at commas, order kept, unknown names preserved one by one')
@@ -249,6 +251,17 @@ def mpint_sign(ctx, report):
 def banner(ctx, report):
     report.rule('C07.R6', 'identification string: SSH-protoversion-softwareversion SP comments CR LF, at most 255 bytes')
     c = ctx.model.cls('SshProtocolMessage')
+    # the line terminator is consumed exactly once: a run-consuming separator parse makes the reported length depend on the
+    # bytes that follow the banner
+    import ast as _ast
+    pf = c.methods.get('_parse')
+    if pf is not None:
+        for n in _ast.walk(pf.node):
+            if isinstance(n, _ast.Call) and isinstance(n.func, _ast.Attribute) and n.func.attr == 'parse_separator' and n.args and \
+                    isinstance(n.args[0], _ast.Constant) and n.args[0].value in ('\n', '\r\n'):
+                report.count('C07.R6')
+                report.add('C07.R6', pf.construct + '@terminator-run', 'the line feed that ends the identification string is parsed as a run of separators: '
+                           'line feeds that follow the banner are counted as part of it (n depends on the following bytes)')
     lay = ctx.canon.layout(c, 'compose')
     els = lay.elements
     report.count('C07.R6', 3)
